@@ -231,7 +231,7 @@ def ev(e, env):
     if isinstance(e, ast.Call) and isinstance(e.func, ast.Attribute) and e.func.attr in ('values', 'items', 'keys', 'get', 'setdefault') and not e.keywords:
         b = ev(e.func.value, env)
         if isinstance(b, dict) and not isinstance(b, Rec):
-            return getattr(b, e.func.attr)(*_args(e.args, env)) if e.func.attr in ('get', 'setdefault') else list(getattr(b, e.func.attr)())
+            return getattr(b, e.func.attr)(*_args(e.args, env)) if e.func.attr in ('get', 'setdefault') else getattr(b, e.func.attr)()     # live views: changing the dict while iterating raises, as in Python
     if isinstance(e, (ast.GeneratorExp, ast.ListComp)):
         out = []
 
@@ -254,6 +254,15 @@ def ev(e, env):
         if names and all(n in types_ or isinstance(env.get(n), type) for n in names):
             return isinstance(ev(e.args[0], env), tuple(env[n] if isinstance(env.get(n), type) else types_[n] for n in names))
         raise ModelError(f'minieval: isinstance with {ast.unparse(t)}')
+    if isinstance(e, ast.Call) and isinstance(e.func, ast.Name) and e.func.id == 'getattr' and len(e.args) in (2, 3) and not e.keywords:
+        o, a = ev(e.args[0], env), ev(e.args[1], env)
+        if isinstance(o, NS) and isinstance(a, str):
+            if hasattr(o, a):
+                return getattr(o, a)
+            if len(e.args) == 3:
+                return ev(e.args[2], env)
+            raise AttributeError(a)
+        raise ModelError('minieval: getattr on an unmodelled object')
     if isinstance(e, ast.Call) and isinstance(e.func, ast.Name) and e.func.id == 'hasattr' and len(e.args) == 2 and not e.keywords:
         o, a = ev(e.args[0], env), ev(e.args[1], env)
         if isinstance(o, (NS, tuple, str, int, list, dict)) or o is None:
@@ -276,8 +285,8 @@ def ev(e, env):
         return list(itertools.product(*args))
     if isinstance(e, ast.Call) and isinstance(e.func, ast.Name) and e.func.id == 'dict' and not e.args and not e.keywords:
         return {}
-    if isinstance(e, ast.Call) and isinstance(e.func, ast.Name) and e.func.id == 'dict' and len(e.args) == 1 and not e.keywords and 'dict' not in env:
-        return dict(ev(e.args[0], env))
+    if isinstance(e, ast.Call) and isinstance(e.func, ast.Name) and e.func.id == 'dict' and len(e.args) <= 1 and all(k.arg for k in e.keywords) and 'dict' not in env:
+        return dict(*[ev(a, env) for a in e.args], **{k.arg: ev(k.value, env) for k in e.keywords})
     if isinstance(e, ast.Call) and isinstance(e.func, ast.Attribute) and e.func.attr in ('append', 'extend') and not e.keywords:
         recv = ev(e.func.value, env)
         if isinstance(recv, list) or type(recv).__name__ == 'deque':        # comprehension evaluated for its effect on a list the code itself created
@@ -302,6 +311,10 @@ def ev(e, env):
         b = ev(e.func.value, env)
         if isinstance(b, collections.deque) or (isinstance(b, list) and e.func.attr == 'pop'):
             return getattr(b, e.func.attr)(*_args(e.args, env))    # IndexError on an empty container: what the code would raise
+    if isinstance(e, ast.Call) and isinstance(e.func, ast.Attribute) and e.func.attr in ('free_index',) and not e.keywords:
+        b = ev(e.func.value, env)
+        if getattr(type(b), '_kv_class', False) and isinstance(b, list):
+            return getattr(b, e.func.attr)(*_args(e.args, env))      # a method of a container stand-in of the rule
     if isinstance(e, ast.Call) and isinstance(e.func, ast.Name) and e.func.id in _CALLS and not e.keywords:
         return _CALLS[e.func.id](*_args(e.args, env))
     if isinstance(e, ast.Call) and isinstance(e.func, ast.Attribute) and isinstance(e.func.value, ast.Name) and e.func.value.id == 're' \
@@ -493,13 +506,15 @@ def run(stmts, env):
                 raise ModelError(f'minieval: {st.value.func.attr} on {type(recv).__name__}')
             getattr(recv, st.value.func.attr)(*_args(st.value.args, env))
             continue
-        if isinstance(st, ast.Assign) and len(st.targets) > 1 and all(isinstance(t, ast.Name) for t in st.targets):
-            v = ev(st.value, env)      # chained assignment a = b = value
+        if isinstance(st, ast.Assign) and len(st.targets) > 1:
+            v = ev(st.value, env)      # chained assignment a = b.c = value (targets are bound left to right)
             for t in st.targets:
-                env[t.id] = v
+                bind(t, v, env)
             continue
         if isinstance(st, ast.Assign) and len(st.targets) == 1 and isinstance(st.targets[0], ast.Attribute):
             base = ev(st.targets[0].value, env)
+            if base is None:
+                raise AttributeError(f"'NoneType' object has no attribute {st.targets[0].attr!r}")      # what the code itself would raise
             if not isinstance(base, NS):
                 raise ModelError('minieval: attribute store')
             setattr(base, st.targets[0].attr, ev(st.value, env))
@@ -512,6 +527,18 @@ def run(stmts, env):
             if not isinstance(base, (list, dict, IntArr)):
                 raise ModelError('minieval: item store')
             base[ev(st.targets[0].slice, env)] = ev(st.value, env)
+            continue
+        if isinstance(st, ast.AnnAssign) and st.value is not None:
+            bind(st.target, ev(st.value, env), env)
+            continue
+        if isinstance(st, ast.Delete):
+            for t in st.targets:
+                if not isinstance(t, ast.Subscript):
+                    raise ModelError('minieval: del of a name / attribute')
+                base = ev(t.value, env)
+                if not isinstance(base, (list, dict)) or isinstance(base, Rec):
+                    raise ModelError('minieval: del on an unmodelled container')
+                del base[ev(t.slice, env)]
             continue
         if isinstance(st, ast.Assign) and len(st.targets) == 1:
             bind(st.targets[0], ev(st.value, env), env)
@@ -563,12 +590,12 @@ def module_functions(tree, genv):
     return genv
 
 
-def make_class(classdef, genv):
+def make_class(classdef, genv, base=None):
     """A Python class standing for a (data) class of the analysed module: constructing it evaluates the class's own __init__ in Engine M,
     reading a property or calling a method evaluates that function. Instances are NS objects (identity semantics)."""
     funcs = {st.name: st for st in classdef.body if isinstance(st, ast.FunctionDef)}
 
-    class K(NS):
+    class K(base or NS):
         _kv_class = True
         _kv_name = classdef.name
 
@@ -589,7 +616,7 @@ def make_class(classdef, genv):
 
         def __getattr__(self, name):
             fd = funcs.get(name)
-            if fd is None or name.startswith('__'):
+            if fd is None or (name.startswith('__') and name not in ('__getstate__', '__setstate__')):
                 raise AttributeError(name)
             decos = {d.id if isinstance(d, ast.Name) else getattr(d, 'attr', None) for d in fd.decorator_list}
             if 'property' in decos:
@@ -599,6 +626,13 @@ def make_class(classdef, genv):
             def call(*a):
                 return call_function(fd, ([] if 'staticmethod' in decos else [me]) + list(a), genv)
             return stub(call)
+    for _d in ('__getstate__', '__setstate__'):
+        if _d in funcs:
+            def _mk(fd):
+                def m(self, *a):
+                    return call_function(fd, [self] + list(a), genv)
+                return m
+            setattr(K, _d, _mk(funcs[_d]))      # object defines these itself: the class's own must take precedence
     K.__name__ = classdef.name
     return K
 
